@@ -408,6 +408,13 @@ example : (List.range 3).map (lengthDelta .garbageSwap) = [1, -1, 0] ∧
     ((List.range 3).map (lengthDelta .garbageSwap)).sum = 0 ∧
     (step (run (init .muscle5 .garbageSwap 3 "protein") [.start]) (.join .none)).2 = .err errEval := by decide
 
+/-- A row that has *lost* a residue (too few symbols, the trace would stay inside the sequence) is refused just like a row
+with too many: the check is an equality per row, not an upper bound. -/
+example :
+    lengthDelta .garbageShort 1 = -1 ∧ lengthDelta .garbageLength 0 = 1 ∧
+    (step (run (init .clustalo .garbageShort 3 "protein") [.start]) (.join .none)).2 = .err errEval ∧
+    (run (init .clustalo .garbageShort 3 "protein") [.start, .join .none]).state = .cancelled := by decide
+
 /-- A program that fills the STDERR pipe cannot be seen finished by polling, but `join` (which reads the pipes while it
 waits) completes it — with and without a (sufficient) timeout. -/
 example :
